@@ -17,6 +17,7 @@
 import MptModel.Lemmas.Convert
 import MptModel.Lemmas.ConvText
 import MptModel.Lemmas.ConvFloat
+import MptModel.Lemmas.ConvDec
 namespace Mpt.C07
 open Mpt Mpt.Conv Mpt.Scalar Mpt.Flt
 
@@ -207,6 +208,57 @@ theorem text_float_no_saturation (p : TextParser)
       checkFloatParser q = true := by decide +kernel
   exact runFloatParser_no_overflow p (hall p hp) r hr s d o n h hn
 
+/-- the parsers `mpt_convert_number` reaches for f, d, e pass both checkers -/
+theorem floatTargets (tgt : Ty) (ht : tgt ∈ [Ty.f, Ty.d, Ty.e]) :
+    ∃ p, numberFloatTarget tgt = some p ∧ checkFloatParser p = true ∧ checkFloatSafe p = true := by
+  have h : ∀ ty ∈ [Ty.f, Ty.d, Ty.e], (match numberFloatTarget ty with
+      | some p => checkFloatParser p && checkFloatSafe p
+      | none => false) = true := by decide +kernel
+  have := h tgt ht
+  cases hp : numberFloatTarget tgt with
+  | none => simp [hp] at this
+  | some p =>
+    simp only [hp, Bool.and_eq_true] at this
+    exact ⟨p, rfl, this.1, this.2⟩
+
+/-- Text -> floating point, `mpt_convert_number` and `mpt_convert_string` for the targets f, d, e as described by the
+    regenerated `Generated/ConvText.lean`, for *every* behaviour `strto` of `strtof/strtod/strtold`: the call never
+    has undefined behaviour, and without destination it gives the verdict and the count of the storing call and
+    stores nothing.  (An unguarded store, a test the temporary cannot be put to, or a second width case break it.) -/
+theorem text_float_total (tgt : Ty) (ht : tgt ∈ [Ty.f, Ty.d, Ty.e]) (strto : List Nat → StrToF) (s : List Nat) :
+    (∀ d, verdict (convertNumberF tgt strto s d) ≠ .broken) ∧
+    convertNumberF tgt strto s false = dropF (convertNumberF tgt strto s true) ∧
+    (∀ d, verdict (convertStringF tgt strto s d) ≠ .broken) ∧
+    convertStringF tgt strto s false = dropF (convertStringF tgt strto s true) := by
+  obtain ⟨p, hp, _, hsafe⟩ := floatTargets tgt ht
+  obtain ⟨h1, h2⟩ := runFloatParser_safe p hsafe (strto s) s
+  obtain ⟨h3, h4⟩ := convertStringF_safe tgt strto s (fun q hq => by rw [hp] at hq; cases hq; exact hsafe)
+  refine ⟨?_, ?_, h3, h4⟩
+  · intro d; simp only [convertNumberF, hp]; exact h1 d
+  · simp only [convertNumberF, hp]; exact h2
+
+/-- Text -> floating point over the decimal model `strtoDec` of `strtof/strtod/strtold` (Impl/Convert.lean; the driver
+    runs it against the real libc for every decimal text): what an accepted `mpt_convert_string` call consumed is
+    white space followed by a decimal floating-point numeral in the sense of Spec/Scalar.lean (`IsDecNumeral`:
+    sign, digits with optional fraction, optional exponent) denoting `(-1)^neg * m * 10^e`; the correctly rounded
+    value of that number in the target format is finite, and it is what the destination receives; without destination
+    nothing is stored.  A numeral whose rounded value would be an infinity is refused.  Whether the rounded value
+    equals the number is not claimed here: see `float_exact_counterexample`. -/
+theorem text_float_decimal (tgt : Ty) (ht : tgt ∈ [Ty.f, Ty.d, Ty.e]) (s : List Nat) (d : Bool)
+    (o : Option FVal) (n : Nat)
+    (h : convertStringF tgt (strtoDec (tgtCTy tgt).fmt) s d = .ok (o, n)) (hn : n ≠ 0) :
+    n ≤ s.length ∧ ∃ neg m e, IsDecNumeral (s.take n) neg m e ∧
+      (∀ sg, roundDec (tgtCTy tgt).fmt neg m e ≠ .inf sg) ∧
+      (d = true → o = some (roundDec (tgtCTy tgt).fmt neg m e)) ∧ (d = false → o = none) := by
+  obtain ⟨p, hp, hck, _⟩ := floatTargets tgt ht
+  exact convertStringF_decimal tgt p hp hck _ s d o n h hn
+
+/-- " 0.1" is accepted as a float with the nearest binary32 value; "1e39" is refused, not stored as infinity -/
+example : convertStringF .f (strtoDec binary32) [32, 48, 46, 49] true = .ok (some (.fin false 13421773 (-27)), 4) := by
+  decide +kernel
+example : convertStringF .f (strtoDec binary32) [49, 101, 51, 57] true = .err .BadValue := by decide +kernel
+example : convertStringF .d (strtoDec binary64) [49, 101, 51, 57] false = .ok (none, 4) := by decide +kernel
+
 /-- which of them `mpt_convert_number` reaches for f, d, e -/
 example : (Generated.Text.numberDispatch.filter (fun x => x.1 ∈ [102, 100, 101])).map (·.2.1) =
     ["mpt_cfloat", "mpt_cdouble", "mpt_cldouble"] := by decide
@@ -228,5 +280,258 @@ example : argvPass .x (.int 5000000000) = .ok (.int 5000000000) := by decide
 /-- `mpt_fpoint_set` (mptplot, a consumer of `mpt_iterator_consume`): both coordinates are consumed as 'f' straight
     into the float members, so what it stores is what the 'f' conversion delivers (`float_no_saturation`). -/
 theorem fpoint_consumes_float : Generated.fpointConsume = [(Ty.code .f, true), (Ty.code .f, true)] := by decide
+
+/-! ### the clause "the target denotes the same number" for floating targets: known finding `c_ne_s:rounded` -/
+
+/-- The full clause for floating targets: an accepted conversion stores a value that denotes the source number. -/
+def float_exact_statement : Prop :=
+  ∀ (src tgt : Ty) (s : Src) (y : FVal) (n : Nat), tgt ∈ Ty.floats → srcOK src s →
+    conv src tgt s true = .ok (some (.flt y), n) → y.same (srcVal s) = true
+
+/-- It does not hold for the unchanged code: int32 16777217 is accepted for a float target and 16777216 is stored
+    (likewise 2^53+1 for double); the conversion rounds instead of refusing. -/
+theorem float_exact_counterexample : ¬ float_exact_statement := by
+  intro h
+  have := h .i .f (.int 16777217) (.fin false 8388608 1) 4 (by decide) ⟨rfl, by decide⟩ (by decide +kernel)
+  revert this
+  decide
+
+/-- What holds instead (with `float_no_saturation`: the stored value is the correctly rounded one, never an infinity for
+    a finite source): a source number that the target format can hold is stored exactly. -/
+theorem float_exact_partial (src tgt : Ty) (ht : tgt ∈ Ty.floats) (s : Src) (hs : srcOK src s)
+    (hrep : (round (tgtCTy tgt).fmt (srcVal s)).same (srcVal s) = true) (o : Option Out) (n : Nat)
+    (h : conv src tgt s true = .ok (o, n)) : ∃ y, o = some (.flt y) ∧ y.same (srcVal s) = true := by
+  obtain ⟨y, hy, hyr, _⟩ := ((float_no_saturation src tgt ht s hs).2 o n h).2
+  exact ⟨y, hy, by rw [hyr]; exact hrep⟩
+
+example : (round binary32 (srcVal (.int 16777216))).same (srcVal (.int 16777216)) = true := by decide +kernel
+
+/-- Floating source, integer target (27 pairs): the converters have no such case, every value is refused (BadType) in
+    both modes — the property allows a refusal, it is never a fault. -/
+theorem float_to_int_refused (src tgt : Ty) (hs : src ∈ Ty.floats) (ht : tgt ∈ Ty.ints) (s : Src) (d : Bool) :
+    conv src tgt s d = .err .BadType := by
+  simp only [Ty.floats, Ty.ints, List.mem_cons, List.mem_nil_iff, or_false] at hs ht
+  rcases hs with rfl | rfl | rfl <;> rcases ht with rfl | rfl | rfl | rfl | rfl | rfl | rfl | rfl | rfl <;> rfl
+
+/-! ### the functions built on the converters: `mpt_value_convert`, `mpt_iterator_consume`, the vararg iterator, `mpt_fpoint_set` -/
+
+/-- `mpt_value_convert` (converter, else raw copy of an identical type), integer types: never a fault, same verdict in
+    query mode, and an accepted conversion leaves an object that denotes exactly the source number. -/
+theorem value_convert_exact (src tgt : Ty) (hs : src ∈ Ty.ints) (ht : tgt ∈ Ty.ints) (v : Int) (hv : inRange src v) (d : Bool) :
+    verdict (valueConvert src tgt (.int v) d) ≠ .broken ∧
+    verdict (valueConvert src tgt (.int v) false) = verdict (valueConvert src tgt (.int v) true) ∧
+    ∀ o n, valueConvert src tgt (.int v) d = .ok (o, n) →
+      (d = false → o = none) ∧ (d = true → ∃ bits, o = some (.int bits) ∧ denote tgt bits = v) := by
+  have hq := query_same_verdict src tgt (.int v)
+  have key : ∀ d', verdict (valueConvert src tgt (.int v) d') ≠ .broken ∧
+      ∀ o n, valueConvert src tgt (.int v) d' = .ok (o, n) →
+        (d' = false → o = none) ∧ (d' = true → ∃ bits, o = some (.int bits) ∧ denote tgt bits = v) := by
+    intro d'
+    obtain ⟨hnb, hex⟩ := int_exact src tgt hs ht v hv d'
+    unfold valueConvert
+    cases hc : conv src tgt (.int v) d' with
+    | ok r =>
+      obtain ⟨o, n⟩ := r
+      obtain ⟨_, h1, h2⟩ := hex o n hc
+      refine ⟨by simp [verdict], ?_⟩
+      intro o' n' h
+      simp only [Res.ok.injEq, Prod.mk.injEq] at h
+      obtain ⟨rfl, _⟩ := h
+      exact ⟨h1, fun hd => by obtain ⟨b, hb, hden, _⟩ := h2 hd; exact ⟨b, hb, hden⟩⟩
+    | err e =>
+      by_cases hst : src = tgt
+      · subst hst
+        simp only [if_true]
+        refine ⟨by simp [verdict], ?_⟩
+        intro o n h
+        simp only [Res.ok.injEq, Prod.mk.injEq] at h
+        obtain ⟨rfl, _⟩ := h
+        have hf : src.isFloat = false := by cases src <;> simp [Ty.ints] at hs <;> rfl
+        refine ⟨by intro hd; simp [hd], ?_⟩
+        intro hd
+        exact ⟨_, by simp [hd, srcOut], denote_store src v hf hv.1 hv.2⟩
+      · simp only [hst, if_false]
+        exact ⟨by simp [verdict], by intro o n h; simp at h⟩
+    | null => simp [hc, verdict] at hnb
+    | oob => simp [hc, verdict] at hnb
+    | fault => simp [hc, verdict] at hnb
+  refine ⟨(key d).1, ?_, (key d).2⟩
+  -- query mode: the verdict is a function of the converter's verdict and of `src = tgt`
+  have hv : ∀ d', verdict (valueConvert src tgt (.int v) d') =
+      (match verdict (conv src tgt (.int v) d') with
+        | .accepted => Verdict.accepted
+        | .refused => if src = tgt then Verdict.accepted else Verdict.refused
+        | .broken => Verdict.broken) := by
+    intro d'
+    unfold valueConvert
+    cases conv src tgt (.int v) d' with
+    | ok r => simp [verdict]
+    | err e => by_cases hst : src = tgt <;> simp [hst, verdict]
+    | null => rfl
+    | oob => rfl
+    | fault => rfl
+  rw [hv false, hv true, hq]
+
+/-- c -> c with a non-printable value: the converter refuses, `mpt_value_convert` copies the character -/
+example : conv .c .c (.int 7) true = .err .BadValue ∧ valueConvert .c .c (.int 7) true = .ok (some (.int 7), 0) := by decide
+
+/-- `mpt_iterator_consume` and the vararg path hand the same object on: they differ from `mpt_value_convert` only in
+    the returned code, and the vararg path delivers the integer unchanged (`argv_faithful`). -/
+theorem consume_exact (src tgt : Ty) (hs : src ∈ Ty.ints) (ht : tgt ∈ Ty.ints) (v : Int) (hv : inRange src v) (d : Bool) :
+    argvConsume src tgt (.int v) d = consume src tgt (.int v) d ∧
+    verdict (consume src tgt (.int v) d) ≠ .broken ∧
+    ∀ o n, consume src tgt (.int v) d = .ok (o, n) →
+      n = src.code ∧ (d = false → o = none) ∧ (d = true → ∃ bits, o = some (.int bits) ∧ denote tgt bits = v) := by
+  obtain ⟨hnb, _, hex⟩ := value_convert_exact src tgt hs ht v hv d
+  refine ⟨by simp [argvConsume, argv_faithful.2 src hs v hv], ?_, ?_⟩
+  · unfold consume
+    cases h : valueConvert src tgt (.int v) d <;> simp_all [verdict]
+  · intro o n h
+    unfold consume at h
+    cases hc : valueConvert src tgt (.int v) d with
+    | ok r =>
+      obtain ⟨o', n'⟩ := r
+      simp only [hc, Res.ok.injEq, Prod.mk.injEq] at h
+      obtain ⟨rfl, rfl⟩ := h
+      exact ⟨rfl, hex o' n' hc⟩
+    | _ => simp [hc] at h
+
+/-- the vararg path for floating values: a double arrives unchanged, a float that is a float arrives unchanged (it is
+    promoted to double and narrowed again), a long double is refused (`mpt_value_argv` has no case for it) -/
+theorem argv_float (x : FVal) :
+    (round binary64 x = x → argvPass .d (.flt x) = .ok (.flt x)) ∧
+    (round binary64 x = x → round binary32 x = x → argvPass .f (.flt x) = .ok (.flt x)) ∧
+    argvPass .e (.flt x) = .err .BadType := by
+  refine ⟨?_, ?_, by rfl⟩
+  · intro h; simp [argvPass, argvRow, Generated.argvTable, Ty.code, tgtCTy, CTy.size, CTy.isFloat, CTy.fmt, h]
+  · intro h1 h2; simp [argvPass, argvRow, Generated.argvTable, Ty.code, tgtCTy, CTy.size, CTy.isFloat, CTy.fmt, h1, h2]
+
+example : round binary64 (.fin false 3 (-1)) = .fin false 3 (-1) ∧ round binary32 (.fin false 3 (-1)) = .fin false 3 (-1) := by decide
+
+/-- `mpt_fpoint_set`: no fault; an accepted point holds, per coordinate, the correctly rounded float of the source
+    number — never an infinity for a finite source (a finite value beyond the float range refuses the whole point). -/
+theorem fpoint_no_saturation (src : Ty) (vals : List Src) (hv : ∀ s ∈ vals, srcOK src s) :
+    verdict (fpointSet src vals) ≠ .broken ∧
+    ∀ px py, fpointSet src vals = .ok (px, py) →
+      ∃ a b, (vals = [a] ∨ vals = [a, b]) ∧ px = round binary32 (srcVal a) ∧
+        py = round binary32 (srcVal (if vals.length = 1 then a else b)) ∧
+        ((srcVal a).isFinite = true → px.isFinite = true) ∧
+        ((srcVal (if vals.length = 1 then a else b)).isFinite = true → py.isFinite = true) := by
+  -- one coordinate
+  have coord : ∀ k, k < 2 → ∀ s, srcOK src s →
+      verdict (fpointCoord k src s) ≠ .broken ∧
+      ∀ z, fpointCoord k src s = .ok z → z = round binary32 (srcVal s) ∧ ((srcVal s).isFinite = true → z.isFinite = true) := by
+    intro k hk s hs
+    have hcode : Generated.fpointConsume[k]? = some (Ty.code .f, true) := by
+      rw [fpoint_consumes_float]; rcases k with _ | _ | k <;> first | rfl | omega
+    obtain ⟨hnb, hex⟩ := float_no_saturation src .f (by decide) s hs
+    have hvc : ∀ o n, valueConvert src .f s true = .ok (o, n) →
+        ∃ z, o = some (.flt z) ∧ (z = round binary32 (srcVal s) ∧ ((srcVal s).isFinite = true → z.isFinite = true) ∨ (src = .f ∧ z = srcVal s)) := by
+      intro o n h
+      unfold valueConvert at h
+      cases hc : conv src .f s true with
+      | ok r =>
+        obtain ⟨o', n'⟩ := r
+        simp only [hc, Res.ok.injEq, Prod.mk.injEq] at h
+        obtain ⟨_, z, hz, hzr, hzf⟩ := hex o' n' hc
+        exact ⟨z, by rw [← h.1, hz], Or.inl ⟨hzr, hzf⟩⟩
+      | err e =>
+        simp only [hc] at h
+        by_cases hsf : src = .f
+        · subst hsf
+          simp only [if_true, Res.ok.injEq, Prod.mk.injEq] at h
+          cases s with
+          | int v => exact absurd hs.1 (by decide)
+          | flt z => exact ⟨z, by rw [← h.1]; rfl, Or.inr ⟨rfl, rfl⟩⟩
+        · simp [hsf] at h
+      | null => simp [hc] at h
+      | oob => simp [hc] at h
+      | fault => simp [hc] at h
+    -- a float source is never refused by its own converter, so the raw copy branch does not occur
+    have hff : ∀ z, src = .f → s = .flt z → ∃ n, conv .f .f (.flt z) true = .ok (some (.flt (round binary32 z)), n) := by
+      intro z _ _; exact ⟨4, by simp [conv, fnOf, Generated.dispatch, Ty.code, Fn.run, Fn.lookup, Fn.resolve, Generated.mpt_data_convert_float32, runCase, Case.supported, evalGuards, CTy.isFloat, doStore, readBack, tgtCTy, CTy.size, CTy.fmt]⟩
+    simp only [fpointCoord, hcode, Ty.ofCode]
+    have hof : Ty.all.find? (fun ty => decide (ty.code = Ty.code .f)) = some .f := by decide
+    simp only [hof, consume]
+    cases hv' : valueConvert src .f s true with
+    | ok r =>
+      obtain ⟨o, n⟩ := r
+      obtain ⟨z, hz, hcase⟩ := hvc o n hv'
+      subst hz
+      simp only [and_self, if_true]
+      refine ⟨by simp [verdict], ?_⟩
+      intro z' hz'
+      simp only [Res.ok.injEq] at hz'
+      subst hz'
+      rcases hcase with h | ⟨hsf, hzs⟩
+      · exact h
+      · -- raw copy branch: impossible, `conv .f .f` accepts
+        subst hsf
+        cases s with
+        | int v => exact absurd hs.1 (by decide)
+        | flt w =>
+          obtain ⟨n', hn'⟩ := hff w rfl rfl
+          unfold valueConvert at hv'
+          rw [hn'] at hv'
+          simp only [Res.ok.injEq, Prod.mk.injEq, Option.some.injEq, Out.flt.injEq] at hv'
+          have := (hex _ _ hn').2
+          obtain ⟨y, hy, hyr, hyf⟩ := this
+          simp only [Option.some.injEq, Out.flt.injEq] at hy
+          rw [← hv'.1, hy]
+          exact ⟨hyr, hyf⟩
+    | err e => simp [verdict]
+    | null =>
+      exfalso; unfold valueConvert at hv'
+      cases hc : conv src .f s true <;> simp [hc] at hv' <;> simp_all [verdict]
+      all_goals (split at hv' <;> simp at hv')
+    | oob =>
+      exfalso; unfold valueConvert at hv'
+      cases hc : conv src .f s true <;> simp [hc] at hv' <;> simp_all [verdict]
+      all_goals (split at hv' <;> simp at hv')
+    | fault =>
+      exfalso; unfold valueConvert at hv'
+      cases hc : conv src .f s true <;> simp [hc] at hv' <;> simp_all [verdict]
+      all_goals (split at hv' <;> simp at hv')
+  match vals, hv with
+  | [], _ => exact ⟨by simp [fpointSet, verdict], by intro x y h; simp [fpointSet] at h⟩
+  | [a], hv =>
+    obtain ⟨hnb, hok⟩ := coord 0 (by omega) a (hv a (by simp))
+    simp only [fpointSet]
+    cases hc : fpointCoord 0 src a with
+    | ok z =>
+      refine ⟨by simp [verdict], ?_⟩
+      intro px py h
+      simp only [Res.ok.injEq, Prod.mk.injEq] at h
+      obtain ⟨rfl, rfl⟩ := h
+      obtain ⟨h1, h2⟩ := hok z hc
+      exact ⟨a, a, Or.inl rfl, h1, by simpa using h1, h2, by simpa using h2⟩
+    | err e => exact ⟨by simp [verdict], by intro x y h; simp at h⟩
+    | null => simp [hc, verdict] at hnb
+    | oob => simp [hc, verdict] at hnb
+    | fault => simp [hc, verdict] at hnb
+  | [a, b], hv =>
+    obtain ⟨hnba, hoka⟩ := coord 0 (by omega) a (hv a (by simp))
+    obtain ⟨hnbb, hokb⟩ := coord 1 (by omega) b (hv b (by simp))
+    simp only [fpointSet]
+    cases hca : fpointCoord 0 src a with
+    | ok z =>
+      cases hcb : fpointCoord 1 src b with
+      | ok w =>
+        refine ⟨by simp [verdict], ?_⟩
+        intro px py h
+        simp only [Res.ok.injEq, Prod.mk.injEq] at h
+        obtain ⟨rfl, rfl⟩ := h
+        obtain ⟨h1, h2⟩ := hoka z hca
+        obtain ⟨h3, h4⟩ := hokb w hcb
+        exact ⟨a, b, Or.inr rfl, h1, by simpa using h3, h2, by simpa using h4⟩
+      | err e => exact ⟨by simp [verdict], by intro x y h; simp at h⟩
+      | null => simp [hcb, verdict] at hnbb
+      | oob => simp [hcb, verdict] at hnbb
+      | fault => simp [hcb, verdict] at hnbb
+    | err e => exact ⟨by simp [verdict], by intro x y h; simp at h⟩
+    | null => simp [hca, verdict] at hnba
+    | oob => simp [hca, verdict] at hnba
+    | fault => simp [hca, verdict] at hnba
+  | _ :: _ :: _ :: _, _ => exact ⟨by simp [fpointSet, verdict], by intro x y h; simp [fpointSet] at h⟩
 
 end Mpt.C07
